@@ -65,3 +65,27 @@ Example C10_retry_nonvacuous :
   (tbl_consistent diamond retry_tbl /\ norepeat diamond) /\
   retry_obs = Some (LDone, [(NSuccess, 0); (NSuccess, 1); (NSuccess, 0); (NSuccess, 1)]).
 Proof. exact (conj retry_example_consistent retry_example_run). Qed.
+
+(* ---- "in dependency order" and "subject to scheduling" for the retry ------------------------------------------ *)
+From BD.Sched Require Import ProofsFinal.
+
+(* Whenever a command starts in a retry, each dependency of its step is finished, or failed with continueOn.failure,
+   or skipped with continueOn.skipped, has no live worker, is not executing and never starts again; a dependency whose
+   recorded result was kept shows exactly that recorded status (and was not executed). *)
+Theorem C10_dependency_order : forall (c : cfg), norepeat c -> forall (tbl : nat -> nstatus) ls1 i ls2 s1 s2 s3,
+  tbl_consistent c tbl -> run c (init_from c tbl) ls1 = Some s1 -> step c s1 (WExecStart i) = Some s2 ->
+  run c s2 ls2 = Some s3 -> forall d, In d (deps (steps c i)) ->
+  okterm c s1 d /\ active (ph (nd s1 d)) = false /\ ph (nd s1 d) <> PExec /\ ~ In (WExecStart d) ls2 /\
+  (tbl d = NSuccess \/ tbl d = NSkipped -> st (nd s1 d) = tbl d /\ att (nd s1 d) = 0).
+Proof. exact retry_start_after_deps. Qed.
+Print Assumptions C10_dependency_order.
+
+(* At the end of a retry that was not stopped and did not time out, every step of the retried part carries the state
+   C02 dictates from a fresh start (blocked => not executed and canceled/skipped; unmet precondition => skipped; otherwise
+   run until its first success or limit+1 attempts), the kept steps counting as blockers / permitters with their
+   recorded status. *)
+Theorem C10_retried_part_is_scheduled : forall (c : cfg), norepeat c -> forall (tbl : nat -> nstatus) ls s i,
+  tbl_consistent c tbl -> run c (init_from c tbl) ls = Some s -> quiet s -> pc s = LDone -> i < nsteps c ->
+  tbl i <> NSuccess -> tbl i <> NSkipped -> final_clauses c s i.
+Proof. exact retry_final_states. Qed.
+Print Assumptions C10_retried_part_is_scheduled.
